@@ -9,6 +9,7 @@ import Peppi.Stream
 import Peppi.Prog
 import Peppi.ReadProg
 import Peppi.ReadStream
+import Peppi.Lemmas.Trunc
 set_option linter.unusedVariables false
 namespace Peppi.Props.C12
 
@@ -111,5 +112,20 @@ open Extracted Prog in
 theorem parseStartS_frag (T : TextOracle) (h : HSrc) (ps : ParseState) (rest : Bytes) (hp : parseStart T h.pieces.flatten = .ok (ps, rest)) :
     ∃ s' used, (parseStartP T).runS h = .ok (ps, ⟨s', h.fed.map (· ++ used)⟩) ∧ s'.flatten = rest ∧ h.pieces.flatten = used ++ rest :=
   _root_.Peppi.parseStartS_frag T h ps rest hp
+
+/- from `Peppi.Lemmas.Trunc` -/
+open Extracted in
+theorem local_parseStart (T : TextOracle) : Rd.Local (parseStart T) :=
+  _root_.Peppi.local_parseStart T
+
+/- from `Peppi.Lemmas.Trunc` -/
+open Extracted in
+theorem local_parseEvent (ps : ParseState) : Rd.Local (parseEvent ps) :=
+  _root_.Peppi.local_parseEvent ps
+
+/- from `Peppi.Lemmas.Trunc` -/
+open Extracted in
+theorem local_parseMetadata (utf8 st) : Rd.Local (parseMetadata utf8 st) :=
+  _root_.Peppi.local_parseMetadata utf8 st
 
 end Peppi.Props.C12
